@@ -323,3 +323,224 @@ Example C17_ex_mark_wiring_marks_last_differs :
                              s_chans := mk_chans (M_OVNI :: M_NOSV :: nil) ++ mark_chans (ConnectProofs.mk_mtype 1 true :: nil); s_lint := false |} = false.
 Proof. vm_compute. reflexivity. Qed.
 (* ==== end of block (unit connect) ==== *)
+
+(* ==== mark readers from source (unit markread) ==== *)
+(* The emulator-side readers of the "ovni.mark" metadata in src/emu/ovni/mark.c (parse_number, find_label, add_label,
+   parse_labels, find_mark_type, create_mark_type, parse_mark, scan_thread) are regenerated into Gen/MarkRead_gen.v on every
+   run (unit markread, statement by statement; prelude Emu/MarkReadPre.v: parson look-ups with the meaning of
+   Rt/RtMetaDefs.v, the member walk as a counted fold, strtol = Emu/VParsePre.v's model, the uthash tables as
+   insertion-ordered lists with a pending calloc'ed object that becomes the table entry at HASH_ADD, snprintf's returned
+   length against MAX_PCF_LABEL 512).  Proofs/MarkReadProofs.v proves, for EVERY tree:
+   - C17_parse_number_from_source: the generated parse_number = MarkJsonDefs.parse_number (same refusals, same value);
+   - C17_parse_labels_from_source: the generated parse_labels on a type of the table = MarkJsonDefs.parse_labels then
+     MarkDefs.merge_labels on the labels the type has (same refusals, the labels appended in the same order);
+   - C17_parse_mark_from_source: the generated parse_mark = MarkJsonDefs.parse_mark_entry then MarkDefs.merge_def
+     (range [0,100), title / chan_type strings, "single" / "stack", a new type appended or the title / channel type
+     compared, the labels merged);
+   - C17_scan_thread_from_source: the generated scan_thread = MarkJsonDefs.parse_mark_json then MarkDefs.merge_defs;
+   - C17_mark_readers_from_source: mark_create's loop over the threads (MarkReadProofs.run_threads: scan_thread on every
+     thread's tree, from the empty table) = MarkJsonDefs.emu_types_of_trees: same refusals, same type table, same order.
+   The only hypothesis, tree_ok, says that the member names of "ovni.mark" and of the "labels" objects contain no NUL
+   byte (they are C strings; RtMetaDefs.str is "bytes of a C string, no NUL").  It is not needed when the hand model
+   accepts every thread (C17_mark_readers_accepted_from_source: what strtol accepts has no NUL), so the composition
+   C17_compose_through_json holds with the GENERATED readers on the emulator side
+   (C17_compose_through_generated_readers), C17_malformed_mark_metadata_refused gives the refusal of the generated loop
+   (C17_malformed_refused_by_generated_readers) and the PCF sections of C17_compose_pcf_through_json are a function of
+   the table the generated readers build (C17_pcf_through_generated_readers).
+   Not translated: mark_create's own loop statement (`for (t = sys->threads; t; t = t->gnext)`, here run_threads) and
+   create_type / pcf_add_value (the PCF writer, MarkJsonDefs.pcf_of_types_with). *)
+From OV Require Emu.MarkReadPre Gen.MarkRead_gen Proofs.MarkReadProofs.
+Module MR.
+Import RtMetaDefs MarkJsonDefs MarkJsonProofs MarkReadPre MarkReadProofs.
+
+Theorem C17_parse_number_from_source : forall s st, nonul s ->
+  MarkRead_gen.parse_number (Some s) tt st =
+  match MarkJsonDefs.parse_number s with
+  | Some v => ROk (0, out_state st 0 v)
+  | None => RErr E_FAIL
+  end.
+Proof. exact parse_number_from_source. Qed.
+Print Assumptions C17_parse_number_from_source.
+
+Theorem C17_parse_labels_from_source : forall h ls st m,
+  Forall (fun kv : str * json => nonul (fst kv)) ls -> linked st h ->
+  find_mt (r_tbl st) (hkey st h) = Some m -> Forall short (mt_labels m) ->
+  match MarkJsonDefs.parse_labels ls with
+  | None => MarkRead_gen.parse_labels (Some h) (Some ls) st = RErr E_FAIL
+  | Some pl =>
+    match merge_labels (mt_labels m) pl with
+    | None => MarkRead_gen.parse_labels (Some h) (Some ls) st = RErr E_FAIL
+    | Some ls' => exists st', MarkRead_gen.parse_labels (Some h) (Some ls) st = ROk (0, st') /\
+        r_tbl st' = replace_mt (r_tbl st) (upd_labels m ls') /\ frame st st' /\ Forall short ls'
+    end
+  end.
+Proof. exact parse_labels_from_source. Qed.
+Print Assumptions C17_parse_labels_from_source.
+
+Theorem C17_parse_mark_from_source : forall st kv, entry_ok kv -> tbl_ok (r_tbl st) ->
+  match parse_mark_entry kv with
+  | None => MarkRead_gen.parse_mark tt (Some (fst kv)) (Some (snd kv)) st = RErr E_FAIL
+  | Some d =>
+    match merge_def (r_tbl st) d with
+    | None => MarkRead_gen.parse_mark tt (Some (fst kv)) (Some (snd kv)) st = RErr E_FAIL
+    | Some tbl' => exists st', MarkRead_gen.parse_mark tt (Some (fst kv)) (Some (snd kv)) st = ROk (0, st') /\
+        r_tbl st' = tbl' /\ tbl_ok tbl'
+    end
+  end.
+Proof. exact parse_mark_from_source. Qed.
+Print Assumptions C17_parse_mark_from_source.
+
+Theorem C17_scan_thread_from_source : forall fs st, tree_ok (jobj fs) -> tbl_ok (r_tbl st) ->
+  match parse_mark_json (jobj fs) with
+  | None => MarkRead_gen.scan_thread tt (Some fs) st = RErr E_FAIL
+  | Some ds =>
+    match merge_defs (r_tbl st) ds with
+    | None => MarkRead_gen.scan_thread tt (Some fs) st = RErr E_FAIL
+    | Some tbl' => exists st', MarkRead_gen.scan_thread tt (Some fs) st = ROk (0, st') /\ r_tbl st' = tbl' /\ tbl_ok tbl'
+    end
+  end.
+Proof. exact scan_thread_from_source. Qed.
+Print Assumptions C17_scan_thread_from_source.
+
+Theorem C17_mark_readers_from_source : forall ts, Forall tree_ok ts ->
+  run_threads ts r0 = emu_types_of_trees ts.
+Proof. exact mark_readers_from_source. Qed.
+Print Assumptions C17_mark_readers_from_source.
+
+Theorem C17_mark_readers_accepted_from_source : forall ts l, all_some (map parse_mark_json ts) = Some l ->
+  run_threads ts r0 = emu_types_of_trees ts.
+Proof. exact mark_readers_accepted. Qed.
+Print Assumptions C17_mark_readers_accepted_from_source.
+
+Theorem C17_compose_through_generated_readers : forall (ths : list (fields * list mcall)) (finals : list rtm),
+  Forall thread_ok ths ->
+  Forall2 (fun p s => rt_calls rtm_init (snd p) = Ret s) ths finals ->
+  exists trees, Forall2 (fun p fs => tree_calls (fst p) (snd p) = Some fs) ths trees /\
+    run_threads (map jobj trees) r0 = merge_threads (map rt_defs finals).
+Proof. exact compose_through_generated_readers. Qed.
+Print Assumptions C17_compose_through_generated_readers.
+
+Theorem C17_malformed_refused_by_generated_readers : forall ts fs ms kv, Forall tree_ok ts ->
+  In (jobj fs) ts -> pget fs [k_ovni; k_mark] = Some (jobj ms) -> In kv ms -> bad_member kv ->
+  run_threads ts r0 = None.
+Proof. exact malformed_refused_by_generated_readers. Qed.
+Print Assumptions C17_malformed_refused_by_generated_readers.
+
+Theorem C17_pcf_through_generated_readers : forall ts, Forall tree_ok ts ->
+  emu_pcf_of_trees ts = match run_threads ts r0 with Some ms => pcf_of_types_with no_cast ms | None => None end.
+Proof. exact pcf_through_generated_readers. Qed.
+Print Assumptions C17_pcf_through_generated_readers.
+
+Example C17_ex_readers_two_threads :
+  run_threads [jobj (ex_tree ex_calls1); jobj (ex_tree ex_calls2)] r0 =
+    Some [ {| mt_type := 3; mt_title := sP; mt_stack := true; mt_labels := [(1, sA); (2, sB); (9, sC)] |};
+           {| mt_type := 7; mt_title := sQ; mt_stack := false; mt_labels := [(40, sC)] |};
+           {| mt_type := 1; mt_title := sQ; mt_stack := false; mt_labels := [] |} ].
+Proof. exact ex_readers_two_threads. Qed.
+Example C17_ex_readers_conflicts :
+  run_threads [jobj (ex_tree ex_calls1); jobj (ex_tree [MType 3 false (Some sP)])] r0 = None /\
+  run_threads [jobj (ex_tree ex_calls1); jobj (ex_tree [MType 3 true (Some sQ)])] r0 = None /\
+  run_threads [jobj (ex_tree ex_calls1); jobj (ex_tree [MType 3 true (Some sP); MLabel 3 2 (Some sC)])] r0 = None.
+Proof. exact ex_readers_conflicts. Qed.
+Example C17_ex_readers_odd_keys :
+  run_threads [jobj [(k_ovni, jobj [(k_mark, jobj ex_odd_mark)])]] r0 = emu_types_of_trees [jobj [(k_ovni, jobj [(k_mark, jobj ex_odd_mark)])]] /\
+  run_threads [jobj [(k_ovni, jobj [(k_mark, jobj ex_odd_mark)])]] r0 <> None /\
+  run_threads [jobj [(k_ovni, jobj [(k_mark, jstr sA)])]] r0 = Some [].
+Proof. exact ex_readers_odd_keys. Qed.
+End MR.
+(* ==== end of block (unit markread) ==== *)
+
+(* ==== runtime mark API from source (unit rtmark) ==== *)
+(* ovni_mark_type and ovni_mark_label of src/rt/ovni.c are regenerated on every run into Gen/RtMark_gen.v
+   (translate/units/rtmark.py: the machinery of unit rtmeta plus `s[i]` on a string and `c ? "a" : "b"`), over
+   Rt/RtMarkPre.v = Rt/RtMetaPre.v (rthread / rproc as state, die() = E_DIE, parson's dotget / dotset on rthread.meta,
+   snprintf into the 128-byte key buffer) + char_at.  ovni_mark_push / ovni_mark_pop / ovni_mark_set and the emit path
+   they call are the functions of Gen/RtBuf_gen.v (unit rtbuf).  Proofs/RtMarkGenProofs.v: the generated functions compute
+   the tree-level model of the runtime mark API (Rt/MarkJsonDefs.v: mark_type_tree / mark_label_tree inside the metadata
+   state machine `mstep`, which C17_mark_metadata_roundtrip / C17_mark_calls_in_state_machine tie to rt_call), for every
+   model state, thread and argument in the domain (int32_t / int64_t / 7-bit ASCII strings). *)
+From OV Require Rt.RtMetaPre Rt.RtMarkPre Gen.RtMeta_gen Gen.RtMark_gen Proofs.RtMetaGenProofs Proofs.RtMarkGenProofs.
+From OV Require Rt.RtBufPre Rt.RtBufDefs Rt.RtBufApiDefs Gen.RtBuf_gen Proofs.RtBufGenProofs.
+Module RMK := RtMarkGenProofs.
+Module RMG := RtMetaGenProofs.
+
+Theorem C17_runtime_marks_from_source :
+  (* ovni_mark_type: die() exactly when the model dies (type out of [0,100), NULL or empty title, thread not live, key too
+     long, type already defined, dotset refusing), otherwise exactly the model's new metadata tree, nothing written, nothing
+     returned *)
+  (forall sx s th node out t flags title,
+     RMG.agrees sx th out (RtMark_gen.ovni_mark_type t flags title sx (RMG.rs_of s th node out))
+                (MarkJsonDefs.mstep RtMeta_gen.src_cfg s th (MarkJsonDefs.MMarkType t flags title)) RMG.no_val) /\
+  (* ovni_mark_label: likewise (value <= 0, NULL or empty label, type not defined, label already defined) *)
+  (forall sx s th node out t v label,
+     RMG.agrees sx th out (RtMark_gen.ovni_mark_label t v label sx (RMG.rs_of s th node out))
+                (MarkJsonDefs.mstep RtMeta_gen.src_cfg s th (MarkJsonDefs.MMarkLabel t v label)) RMG.no_val) /\
+  (* ovni_mark_push / pop / set (Gen/RtBuf_gen.v): one call = RtBufDefs.step on MarkPush / MarkPop / MarkSet: die() on
+     value 0, otherwise the 12-byte OM[ / OM] / OM= event appended (with a forced flush when the buffer is full) *)
+  (forall cap o g s log, 64 <= cap < 2 ^ 63 -> RtBufApiDefs.op_cb o = true -> RtBufApiDefs.Rep cap g s ->
+     (exists ty va, o = RtBufDefs.MarkPush ty va \/ o = RtBufDefs.MarkPop ty va \/ o = RtBufDefs.MarkSet ty va) ->
+     match RtBufApiDefs.api_call o (RtBufApiDefs.env_of cap) g, RtBufDefs.step true cap o (s, log) with
+     | RtBufPre.Ok (_, g'), RtBufDefs.ROk (s', _) => RtBufApiDefs.Rep cap g' s'
+     | RtBufPre.Err e, RtBufDefs.RAbort => e = RtBufPre.E_DIE
+     | RtBufPre.Err e, RtBufDefs.RNoClock => e = RtBufPre.E_NOCLOCK
+     | RtBufPre.Err e, RtBufDefs.RNoFuel => e = RtBufPre.E_NOFUEL
+     | _, _ => False
+     end).
+Proof.
+  split; [exact RMK.mark_type_from_source|]. split; [exact RMK.mark_label_from_source|].
+  intros cap o g s log Hc W R _. exact (RtBufGenProofs.buffer_ops_from_source cap o g s log Hc W R).
+Qed.
+Print Assumptions C17_runtime_marks_from_source.
+
+(* the run-time refusals of C17_runtime_*, for the generated code, on a live thread whose metadata tree is fs *)
+Theorem C17_runtime_refusals_from_source :
+  (forall sx st t flags title, t < 0 \/ 100 <= t -> RtMark_gen.ovni_mark_type t flags title sx st = RtMetaPre.RErr RtMetaPre.E_DIE) /\
+  (forall sx st t flags, RtMark_gen.ovni_mark_type t flags None sx st = RtMetaPre.RErr RtMetaPre.E_DIE /\
+                         RtMark_gen.ovni_mark_type t flags (Some []) sx st = RtMetaPre.RErr RtMetaPre.E_DIE) /\
+  (* type defined twice *)
+  (forall sx st fs t flags title j, RMK.live st fs -> RMK.c0free title ->
+     RtMetaDefs.dotget fs (MarkJsonDefs.mark_key t) = Some j ->
+     RtMark_gen.ovni_mark_type t flags title sx st = RtMetaPre.RErr RtMetaPre.E_DIE) /\
+  (* label: value <= 0, undefined type, label already defined *)
+  (forall sx st fs t v label, RMK.live st fs -> RMK.c0free label ->
+     (v <= 0 -> RtMark_gen.ovni_mark_label t v label sx st = RtMetaPre.RErr RtMetaPre.E_DIE) /\
+     (RtMetaDefs.dotget fs (MarkJsonDefs.mark_key t) = None -> RtMark_gen.ovni_mark_label t v label sx st = RtMetaPre.RErr RtMetaPre.E_DIE) /\
+     (forall j, RtMetaDefs.dotget fs (MarkJsonDefs.dotted (MarkJsonDefs.dotted (MarkJsonDefs.mark_key t) MarkJsonDefs.k_labels)
+                                       (MarkJsonDefs.render_int v)) = Some j ->
+                RtMark_gen.ovni_mark_label t v label sx st = RtMetaPre.RErr RtMetaPre.E_DIE)) /\
+  (* a thread that is not initialised or already freed *)
+  (forall sx st t flags title, (RtMetaPre.r_finished st <> 0 \/ RtMetaPre.r_ready st = 0) ->
+     RtMark_gen.ovni_mark_type t flags title sx st = RtMetaPre.RErr RtMetaPre.E_DIE) /\
+  (* value 0 for push / pop / set *)
+  (forall fuel ty sx g,
+     RtBuf_gen.ovni_mark_push fuel ty 0 sx g = RtBufPre.Err RtBufPre.E_DIE /\
+     RtBuf_gen.ovni_mark_pop fuel ty 0 sx g = RtBufPre.Err RtBufPre.E_DIE /\
+     RtBuf_gen.ovni_mark_set fuel ty 0 sx g = RtBufPre.Err RtBufPre.E_DIE).
+Proof.
+  exact (conj RMK.gen_type_range_refused (conj RMK.gen_empty_title_refused (conj RMK.gen_type_redefinition_refused
+        (conj RMK.gen_label_refusals (conj RMK.mark_type_dead RMK.gen_zero_value_refused))))).
+Qed.
+Print Assumptions C17_runtime_refusals_from_source.
+
+(* non-vacuity, by computation on the generated code: a live thread defines type 3 ("T", stack), labels value 1, and
+   the tree holds ovni.mark.3 = {title, chan_type, labels: {1}}; the same type again, a label of type 4, value 0: die *)
+Definition rm_env : RtMetaPre.renv := RtMetaPre.mkEnv [] 0 (fun _ => None) (fun _ => []).
+Definition rm_st0 : RtMetaPre.rstate :=
+  RtMetaPre.mkRs 2 0 [] 0 1 0 7 [] (0, 0) 0 0 0 (Some [(RtMetaDefs.k_ovni, RtMetaDefs.jobj [])]) [].
+
+Example C17_ex_runtime_marks_from_source :
+  match RtMetaPre.bind_ (RtMark_gen.ovni_mark_type 3 1 (Some [84])) (RtMark_gen.ovni_mark_label 3 1 (Some [97])) rm_env rm_st0 with
+  | RtMetaPre.ROk (_, st) =>
+    RtMetaPre.r_meta st =
+    Some [(RtMetaDefs.k_ovni, RtMetaDefs.jobj [(MarkJsonDefs.k_mark, RtMetaDefs.jobj [([51], RtMetaDefs.jobj
+            [(MarkJsonDefs.k_title, RtMetaDefs.jstr [84]); (MarkJsonDefs.k_chan_type, RtMetaDefs.jstr MarkJsonDefs.s_stack);
+             (MarkJsonDefs.k_labels, RtMetaDefs.jobj [([49], RtMetaDefs.jstr [97])])])])])]
+  | RtMetaPre.RErr _ => False
+  end /\
+  RtMetaPre.bind_ (RtMark_gen.ovni_mark_type 3 1 (Some [84])) (RtMark_gen.ovni_mark_type 3 0 (Some [85])) rm_env rm_st0 = RtMetaPre.RErr RtMetaPre.E_DIE /\
+  RtMark_gen.ovni_mark_label 4 1 (Some [97]) rm_env rm_st0 = RtMetaPre.RErr RtMetaPre.E_DIE /\
+  RtMetaPre.bind_ (RtMark_gen.ovni_mark_type 3 1 (Some [84])) (RtMark_gen.ovni_mark_label 3 0 (Some [97])) rm_env rm_st0 = RtMetaPre.RErr RtMetaPre.E_DIE /\
+  RtMetaPre.bind_ (RtMark_gen.ovni_mark_type 3 1 (Some [84]))
+    (RtMetaPre.bind_ (RtMark_gen.ovni_mark_label 3 1 (Some [97])) (RtMark_gen.ovni_mark_label 3 1 (Some [98]))) rm_env rm_st0 = RtMetaPre.RErr RtMetaPre.E_DIE.
+Proof. vm_compute. repeat split. Qed.
+(* ==== end of block (unit rtmark) ==== *)
